@@ -62,6 +62,8 @@ func (x xfsEngine) Generate(rng *rand.Rand, prop string, thorough bool) *Plan {
 		cfg.CompMinSeg = []uint32{1, 513}[rng.Intn(2)]
 		cfg.CompFrag = []float32{0.01, 0.1, 0.3}[rng.Intn(3)]
 	}
+	// the initial mapping of fs.OSMMap: shipped 1 GiB, or small enough that files outgrow it and get remapped
+	cfg.MmapInit = []int64{0, 4096, 4096, 8192, 65536}[rng.Intn(5)]
 	p := &Plan{Property: prop, Engine: "xfs", Cfg: cfg}
 	keys := GenKeys(rng, KeyFamily(cfg.Family), cfg.NKeys, cfg.HashSeed)
 	p.Cfg.NKeys = len(keys)
@@ -215,13 +217,36 @@ func (x xfsEngine) exec(t xfsTarget, p *Plan) (run *xfsRun) {
 		f()
 		return nil
 	}
+	var capFault *Violation
 	retain := func(b []byte, what string) {
-		if len(b) == 0 || len(run.retained) >= 400 {
+		if cap(b) == 0 || len(run.retained) >= 400 {
 			return
 		}
 		run.retained = append(run.retained, xfsRetained{live: b, snap: append([]byte(nil), b...), what: what})
+		// the slice is the caller's up to its capacity: the caller appends to it in place. If that memory is
+		// a read-only mapping this faults; if it is a file buffer, the database's own data is damaged and
+		// later reads disagree with the model.
+		if t.sim != nil && t.sim.Overlaps(b[:cap(b)]) && capFault == nil {
+			capFault = violf("returned-slice-aliases-file", "slice returned by %s (len %d, cap %d) points into a file buffer", what, len(b), cap(b))
+		}
+		if spare := b[len(b):cap(b)]; len(spare) > 0 && capFault == nil {
+			func() {
+				defer func() {
+					if r := recover(); r != nil {
+						capFault = violf("returned-slice-faults", "appending in place to the slice returned by %s (len %d, cap %d) faults: %v", what, len(b), cap(b), r)
+					}
+				}()
+				for i := range spare {
+					spare[i] ^= 0xFF
+				}
+			}()
+			run.probes["spare_capacity_used"]++
+		}
 	}
 	checkRetained := func(when string) *Violation {
+		if capFault != nil {
+			return capFault
+		}
 		for _, r := range run.retained {
 			same, fault := readGuarded(r)
 			if fault != nil {
@@ -230,7 +255,7 @@ func (x xfsEngine) exec(t xfsTarget, p *Plan) (run *xfsRun) {
 			if !same {
 				return violf("returned-slice-changed", "slice returned by %s changed %s: was %s now %s", r.what, when, clip(r.snap), clip(r.live))
 			}
-			if t.sim != nil && t.sim.Overlaps(r.live) {
+			if t.sim != nil && t.sim.Overlaps(r.live[:cap(r.live)]) {
 				return violf("returned-slice-aliases-file", "slice returned by %s points into a file buffer (%s)", r.what, when)
 			}
 		}
@@ -759,6 +784,13 @@ func (x xfsEngine) Execute(p *Plan) *RunResult {
 	res := newResult()
 	ts, cleanup := x.targets(p)
 	defer cleanup()
+	if p.Cfg.MmapInit > 0 {
+		setInitialMmapSize(p.Cfg.MmapInit)
+		res.Probes["small_initial_mapping"]++
+	} else {
+		setInitialMmapSize(1024 << 20)
+	}
+	defer setInitialMmapSize(1024 << 20)
 	var runs []*xfsRun
 	for _, t := range ts {
 		r := x.exec(t, p)
